@@ -41,7 +41,7 @@ RESOLVE_AT = 24
 def budget(tier):
     if tier == 'quick':
         return {'runs': 6000, 'wall_cap_s': 100, 'per_run_timeout_s': 60, 'shrink_tests': 400}
-    return {'runs': 240000, 'wall_cap_s': 1500, 'per_run_timeout_s': 120, 'shrink_tests': 800}
+    return {'runs': 240000, 'wall_cap_s': 2700, 'per_run_timeout_s': 120, 'shrink_tests': 800}
 
 
 # ------------------------------------------------------------------------------------------------ generation
